@@ -26,7 +26,10 @@ LEVEL_TEXT = ("Non-interference theorems (state unchanged, response independent 
               "histories with mutated headers through the real resource tree and comparing every status/body/state.")
 LEVEL_NOTE = ("Lean kernel + standard axioms; model hand-written, route table and enum/whitespace tables generated from the "
               "live code; timing_safe_compare = equality; TLS and the NURL certificate pin out of scope.")
-RULE = ("a case is one HTTP request sent through HTTPServer.get_resource() (or one call of _extract_secrets / b64decode / "
+RULE = ("the model is per request and stateless with respect to connections: what preceded a request on its keep-alive "
+        "connection must not matter, and every response is compared with the model's; "
+        "a case is one HTTP request sent through HTTPServer.get_resource() — on a fresh connection (StubTreq) or as one of a "
+        "sequence of raw HTTP/1.1 requests down a persistent in-memory connection to a twisted.web Site — (or one call of _extract_secrets / b64decode / "
         "url_map.match at function level); distinct = distinct (route, swissnum-mutation, secret-mutation, status, "
         "state-changed) tuples plus distinct function-level inputs; non-trivial = the server holds at least one share or "
         "upload when the request arrives, or the function-level input is non-empty")
@@ -119,6 +122,9 @@ class Stack:
         ttask._theCooperator = Cooperator(scheduler=lambda c: self.clock.callLater(0, c))
         self.swissnum = swissnum
         self.owner = {}
+        self.site = None
+        self.conns = {}
+        self.conns_made = []
         self.ss = StorageServer(self.dir, nodeid, clock=self.clock)
         self.hs = HTTPServer(self.clock, self.ss, swissnum)
         self.treq = StubTreq(self.hs.get_resource())
@@ -126,6 +132,8 @@ class Stack:
                                     clock=self.clock)
 
     def close(self):
+        for c in self.conns.values():
+            c.close()
         for bw in list(self.ss._bucket_writers.values()):
             try:
                 bw.abort()
@@ -161,6 +169,23 @@ class Stack:
         resp = self.wait(self.treq.request(method, "http://127.0.0.1" + path, headers=h, data=data))
         body = self.wait(resp.content())
         return resp.code, resp.headers, body
+
+    # ------------------------------------------------------------------ keep-alive connections
+
+    def conn(self, cid):
+        """the persistent connection with this id (a new one when it does not exist or the server closed it)"""
+        c = self.conns.get(cid)
+        if c is None or c.closed():
+            if self.site is None:
+                from twisted.web.server import Site
+                self.site = Site(self.hs.get_resource(), reactor=self.clock)
+            c = Connection(self, len(self.conns_made))
+            self.conns_made.append(cid)
+            self.conns[cid] = c
+        return c
+
+    def raw_on_connection(self, cid, method, path, headers, data=None):
+        return self.conn(cid).request(method, path, headers, data)
 
     # ------------------------------------------------------------------ observation of the real state
 
@@ -268,6 +293,86 @@ class Stack:
 
 _HASH_CACHE = {}
 _HASHED = set()
+class _HeaderView:
+    """just enough of twisted's Headers for canon_response"""
+
+    def __init__(self, pairs):
+        self.pairs = [(k.lower(), v) for k, v in pairs]
+
+    def getRawHeaders(self, name, default=None):
+        vals = [v for k, v in self.pairs if k == name.lower()]
+        return vals or default
+
+
+class Connection:
+    """One keep-alive HTTP/1.1 connection (twisted.test.iosim in-memory transports) to a real twisted.web Site that wraps
+    the real HTTPServer resource: raw requests go down the same HTTPChannel one after the other."""
+
+    def __init__(self, stack, serial):
+        from twisted.internet.address import IPv4Address
+        from twisted.internet.protocol import Protocol
+        from twisted.test import iosim
+
+        class Collector(Protocol):
+            buf = b""
+
+            def dataReceived(self, data):
+                self.buf += data
+        self.stack = stack
+        ca = IPv4Address("TCP", "127.0.0.1", 40000 + serial)
+        sa = IPv4Address("TCP", "127.0.0.1", 443)
+        self.server = stack.site.buildProtocol(ca)
+        self.client = Collector()
+        self.st = iosim.FakeTransport(self.server, isServer=True, hostAddress=sa, peerAddress=ca)
+        self.ct = iosim.FakeTransport(self.client, isServer=False, hostAddress=ca, peerAddress=sa)
+        self.pump = iosim.connect(self.server, self.st, self.client, self.ct, debug=False)
+        self.sent = 0
+
+    def closed(self):
+        return self.st.disconnecting or self.st.disconnected or self.ct.disconnected or self.ct.disconnecting
+
+    def close(self):
+        try:
+            self.ct.loseConnection()
+            self.pump.flush()
+        except Exception:
+            pass
+
+    def request(self, method, path, headers, data=None):
+        """headers: [(name bytes, value bytes)]; returns (code, header view, body)"""
+        import http.client
+        import io
+        body = data or b""
+        raw = method.encode("ascii") + b" " + path.encode("ascii") + b" HTTP/1.1\r\nHost: 127.0.0.1\r\n"
+        for k, v in headers:
+            raw += k + b": " + v + b"\r\n"
+        raw += b"Content-Length: %d\r\n\r\n" % len(body) + body
+        self.client.buf = b""
+        self.ct.write(raw)
+        self.sent += 1
+        clock = self.stack.clock
+        for _ in range(3000):
+            moved = self.pump.flush()
+            due = any(dc.getTime() <= clock.seconds() for dc in clock.getDelayedCalls())
+            clock.pump()
+            if not moved and not due:
+                break
+        self.pump.flush()
+        if not self.client.buf:
+            raise Stuck("no response on connection to %s %s" % (method, path))
+
+        class Sock:
+            def __init__(self, d):
+                self.d = d
+
+            def makefile(self, *a, **kw):
+                return io.BytesIO(self.d)
+        resp = http.client.HTTPResponse(Sock(self.client.buf), method=method)
+        resp.begin()
+        payload = resp.read()
+        return resp.status, _HeaderView(resp.getheaders()), payload
+
+
 KNOWN_SECRETS = set()     # every secret value the harness ever sent (leases store only hashes of them)
 
 
@@ -394,7 +499,10 @@ def send(stack, req):
     headers = [(b"Authorization", bytes.fromhex(v)) for v in req["auth"]]
     headers += [(b"X-Tahoe-Authorization", bytes.fromhex(v)) for v in req["xauth"]]
     headers += extra
-    code, rh, body = stack.raw(req["method"], req["path"], headers, data)
+    if req.get("conn") is not None:
+        code, rh, body = stack.raw_on_connection(req["conn"], req["method"], req["path"], headers, data)
+    else:
+        code, rh, body = stack.raw(req["method"], req["path"], headers, data)
     return code, rh, body, request_token(req, tok)
 
 
@@ -649,17 +757,21 @@ def gen_body(rng, w, route, si, n, legit):
     return ["n"]
 
 
-def gen_request(rng, w, st):
+def gen_request(rng, w, st, route=None, force_legit=False, prefer_first=False):
     """one request description (JSON-serialisable)"""
-    route = rng.choice(["version", "allocate", "allocate", "abort", "write", "write", "write", "write", "listImm", "readImm",
-                        "readImm", "lease", "corruptImm", "rtw", "rtw", "rtw", "readMut", "readMut", "listMut", "corruptMut"])
+    if route is None:
+        route = rng.choice(["version", "allocate", "allocate", "abort", "write", "write", "write", "write", "listImm", "readImm",
+                            "readImm", "lease", "corruptImm", "rtw", "rtw", "rtw", "readMut", "readMut", "listMut", "corruptMut"])
     mutable = route in ("rtw", "readMut", "listMut", "corruptMut")
     if route == "lease":
         si = rng.choice(w.imm_si + w.mut_si)
     else:
         si = rng.choice(w.mut_si if mutable else w.imm_si)
     n = rng.randrange(3)
-    legit = rng.random() < 0.7
+    if prefer_first and rng.random() < 0.7:      # aim at what the prologue created
+        si = w.mut_si[0] if mutable else w.imm_si[0]
+        n = rng.randrange(2)
+    legit = force_legit or rng.random() < 0.7
     sw_kind = "ok" if legit else rng.choice(SW_MUT)
     sec_kind = "ok" if legit else rng.choice(SEC_MUT)
     required = REQUIRED[route]
@@ -752,6 +864,56 @@ def gen_history(rng, length):
         k = rng.randrange(len(tail) + 1)
         tail = tail[:k] + cross_requests(rng, w, w.imm_si[1], rng.randrange(2, 6)) + tail[k:]
     return w, reqs + tail
+
+
+BAD_SW = ["missing", "wrong", "truncated", "extended", "lowercase", "noscheme", "wrong+ok", "nonutf8", "empty", "schemeonly", "raw",
+          "padless"]
+CONN_PATTERNS = ["BB", "BB", "Bb", "BG", "GB", "BBB", "BBB", "GBB", "BGB", "BbB"]
+ALL_ROUTES = sorted(REQUIRED)
+
+
+def gen_conn_history(rng):
+    """Requests over keep-alive connections.  Connection 0 belongs to a well-behaved client (prologue: finished share,
+    upload in progress, mutable slot, concurrent uploads).  Every other connection runs a short script of requests that
+    would succeed but for their Authorization header — B: a bad header, b: another bad header, G: the good one —
+    repeated on the same endpoint or moved to another one; the scripts are interleaved with each other and with the
+    well-behaved client's further requests."""
+    w, reqs = gen_history(rng, 0)
+    for r in reqs:
+        r["conn"] = 0
+    scripts = []
+    routes = list(ALL_ROUTES)
+    rng.shuffle(routes)
+    for cid in range(1, rng.choice([4, 5, 6, 7]) + 1):
+        pattern = rng.choice(CONN_PATTERNS)
+        k1, k2 = rng.sample(BAD_SW, 2)
+        h1 = [a.hex() for a in mutate_swissnum(rng, w, k1)]
+        h2 = [a.hex() for a in mutate_swissnum(rng, w, k2)]
+        route = routes[cid % len(routes)]
+        same_endpoint = rng.random() < 0.6
+        script = []
+        for ch in pattern:
+            rt = route if same_endpoint else rng.choice(ALL_ROUTES)
+            q = gen_request(rng, w, None, route=rt, force_legit=True, prefer_first=True)
+            if METHOD[rt] == "GET" and rng.random() < 0.15:
+                q["method"], q["pm"] = "HEAD", "head"
+            if ch == "B":
+                q["auth"], q["sw"] = list(h1), k1
+            elif ch == "b":
+                q["auth"], q["sw"] = list(h2), k2
+            q["conn"] = cid
+            script.append(q)
+        scripts.append(script)
+    out = list(reqs)
+    while any(scripts):
+        if rng.random() < 0.25:
+            q = gen_request(rng, w, None, force_legit=True, prefer_first=True)
+            q["conn"] = 0
+            out.append(q)
+            continue
+        sc = rng.choice([x for x in scripts if x])
+        out.append(sc.pop(0))
+    return w, out
 
 
 def cross_requests(rng, w, si, count):
@@ -916,6 +1078,7 @@ def run_history(ctx, hist_id, w_swissnum, reqs, monitor_world=None):
     """returns (impl output line, driver line)"""
     stack = Stack("c30-%d" % os.getpid(), w_swissnum)
     outs, toks = [], []
+    on_conn = {}
     case = {"kind": "hist", "swissnum": w_swissnum.hex(), "reqs": reqs}
     try:
         after_raw = stack.raw_snapshot()
@@ -939,7 +1102,19 @@ def run_history(ctx, hist_id, w_swissnum, reqs, monitor_world=None):
             # ---- monitor: the property statement on the real server
             sub = {"kind": "hist", "swissnum": w_swissnum.hex(), "reqs": reqs[:i + 1]}
             knows = presents_swissnum(req, w_swissnum)
-            if not knows:
+            if req.get("conn") is not None:
+                on_conn[req["conn"]] = on_conn.get(req["conn"], 0) + 1
+                ctx.count("conn-request:%s" % ("good" if knows else "bad"))
+            if not knows and req.get("conn") is not None:
+                # the statement, whatever preceded the request on its connection
+                leaked = any(d[j:j + 4] in body for d in datas for j in range(0, len(d) - 3))
+                if before_raw != after_raw or leaked or code < 400:
+                    ctx.violation("request %d on a keep-alive connection, without the swissnum (%s), was served: status %d, state %s, "
+                                  "share bytes in the answer: %s" % (on_conn[req["conn"]], req["sw"], code,
+                                                                   "changed" if before_raw != after_raw else "unchanged", leaked), sub,
+                                  "bad-swissnum-served:%s:attempt%d-on-connection" % (effective_route(req) or req["route"],
+                                                                                      on_conn[req["conn"]]))
+            elif not knows:
                 if before_raw != after_raw:
                     ctx.violation("a request without the swissnum changed server state", sub,
                                   "noswissnum-state-change-%s-%s" % (req["route"], req["sw"]))
@@ -1242,9 +1417,13 @@ def run(ctx):
     function_level(ctx)
     # histories through the real resource tree
     cases, impls, lines = [], [], []
-    nh = ctx.budget(160, 3000)
-    for i in range(nh):
-        w, reqs = gen_history(ctx.rng, ctx.rng.choice([12, 25, 40]))
+    nh = ctx.budget(150, 3000)
+    nc = ctx.budget(45, 900)
+    for i in range(nh + nc):
+        if i < nc:
+            w, reqs = gen_conn_history(ctx.rng)
+        else:
+            w, reqs = gen_history(ctx.rng, ctx.rng.choice([12, 25, 40]))
         impl, line = run_history(ctx, i, w.swissnum, reqs)
         cases.append({"kind": "hist", "swissnum": w.swissnum.hex(), "reqs": reqs})
         impls.append(mask_head(reqs, impl))
